@@ -29,8 +29,18 @@ func eraseV(v V) V {
 
 var forms = []string{"n", "a", "as", "p"}
 
+// umfSome: about one nested node in six carries an Unmarshaler (ids 1, 2: distinguishable slices; 3: a slice and an error)
+func umfSome(r *rand.Rand) int {
+	if r.Intn(6) == 0 {
+		return 1 + r.Intn(3)
+	}
+	return 0
+}
+
+// genAliasTree: a Stack in a random form; nested Stacks, nested Conditions and Condition-held Stacks may carry an
+// Unmarshaler (the caller clears the one of the top-level receiver)
 func genAliasTree(r *rand.Rand, depth int) V {
-	c := Cfg{Kind: []int{1, 2, 3, 4}[r.Intn(4)]}
+	c := Cfg{Kind: []int{1, 2, 3, 4}[r.Intn(4)], Umf: umfSome(r)}
 	if r.Intn(4) == 0 {
 		c.Opt |= fParen
 	}
@@ -49,11 +59,11 @@ func genAliasTree(r *rand.Rand, depth int) V {
 			case depth > 0 && r.Intn(2) == 0:
 				ex = genAliasTree(r, depth-1)
 			case r.Intn(4) == 0:
-				ex = V{T: 'C', Form: forms[r.Intn(4)], Kw: "in", Op: "c3", Xs: []V{{T: 'i', I: int64(nextLeaf)}}}
+				ex = V{T: 'C', Form: forms[r.Intn(4)], Cfg: Cfg{Umf: umfSome(r)}, Kw: "in", Op: "c3", Xs: []V{{T: 'i', I: int64(nextLeaf)}}}
 			default:
 				ex = V{T: 's', S: fmt.Sprintf("v%d", nextLeaf)}
 			}
-			st.Xs = append(st.Xs, V{T: 'C', Form: forms[r.Intn(4)], Kw: fmt.Sprintf("k%d", nextLeaf), Op: "c1", Xs: []V{ex}})
+			st.Xs = append(st.Xs, V{T: 'C', Form: forms[r.Intn(4)], Cfg: Cfg{Umf: umfSome(r)}, Kw: fmt.Sprintf("k%d", nextLeaf), Op: "c1", Xs: []V{ex}})
 		case r.Intn(9) == 0:
 			st.Xs = append(st.Xs, V{T: 'N'})
 		default:
@@ -71,6 +81,7 @@ func genAlias(r *rand.Rand, id string, tier string) string {
 	}
 	t := genAliasTree(r, 1+r.Intn(d))
 	t.Form = "n"
+	t.Cfg.Umf = 0 // never on the receiver itself here (stream closures does that)
 	return t.String()
 }
 
@@ -89,7 +100,7 @@ func condLens(s stackage.Stack) string {
 
 func obsAliasTree(s stackage.Stack) string {
 	return guard(func() string {
-		u, _ := s.Unmarshal()
+		u, uerr := s.Unmarshal()
 		var tr []string
 		for _, p := range aliasPaths {
 			x, ok := s.Traverse(p...)
@@ -102,7 +113,7 @@ func obsAliasTree(s stackage.Stack) string {
 		}
 		dst := stackage.List()
 		okx := s.Transfer(dst)
-		return fmt.Sprintf("S%s U{%s} G%s T{%s} L%s P%d X%s%d", hx(s.String()), eraseV(Describe(any(u))), b01(s.IsNesting()),
+		return fmt.Sprintf("S%s U{%s}%s G%s T{%s} L%s P%d X%s%d", hx(s.String()), eraseV(Describe(any(u))), errTokC(uerr), b01(s.IsNesting()),
 			strings.Join(tr, " | "), condLens(s), nn.Len(), b01(okx), dst.Len())
 	})
 }
